@@ -53,6 +53,21 @@ def check_case(prop: str, case, ctx, extra_tag: str = "") -> bool:
             ctx.violation(f"{prop}:{form}:{kind}:{category(fld)}{extra_tag}", f"{case.vendor} {case.layout} {form}: {fld}: {problem}", wit)
             ok = False
         ctx.count(f"fields_compared_{form}", len(expect))
+    # decoding is a function of the octets: wreck the dictionaries that were returned, decode the same octets again, compare again
+    for form in ("body", "frame"):
+        got, ex = res[form]
+        if isinstance(got, dict):
+            got.clear()
+            got["meter_manufacturer"] = "wrecked by the caller"
+    res2 = decode_both(case.vendor, case)
+    for form, expect in (("body", case.expect_body), ("frame", case.expect_frame)):
+        got, ex = res2[form]
+        if ex is None and res[form][1] is None:
+            for fld, problem in dlms_gen.compare_dict(got, expect):
+                ctx.violation(f"{prop}:{form}:second-decode-differs", f"{case.vendor} {case.layout} {form}: decoding the same octets again after the caller changed the first result: {fld}: {problem}", wit)
+                ok = False
+                break
+    res = res2
     # frame vs body on every field except the clock
     (gb, eb), (gf, ef) = res["body"], res["frame"]
     if eb is None and ef is None and isinstance(gb, dict) and isinstance(gf, dict):
